@@ -154,6 +154,43 @@ func checkC20(c *Case, s *Stats) error {
 			return viol("values-modified", "NewSlimTrie replaced element %d of the caller's %s slice by an equal one at another address (start %p -> %p, len %d -> %d, cap %d -> %d)", j, what, identBefore[i].p, id.p, identBefore[i].len, id.len, identBefore[i].cap, id.cap)
 		}
 	}
+	// Byte-slice values carved out of ONE arena (C20-h): the bytes between len and
+	// cap of a value are caller memory too (here: the values that follow it). The
+	// second arena holds some values SHORTER than the size the encoder declares:
+	// whatever such a build does or answers is nobody's business here — it may be
+	// rejected or panic — but it must not write into the caller's buffer either.
+	if bv, ok := vals.([][]byte); ok && len(bv) > 0 {
+		for variant := 0; variant < 2; variant++ {
+			var arena []byte
+			cut := make([][2]int, len(bv))
+			for i, v := range bv {
+				l := len(v)
+				if variant == 1 && l > 0 {
+					l -= (i + len(bv)) % 3 % (l + 1)
+				}
+				cut[i] = [2]int{len(arena), l}
+				arena = append(arena, v[:l]...)
+			}
+			arena = append(arena, 0x5a, 0xa5, 0x5a, 0xa5, 0x5a, 0xa5, 0x5a, 0xa5) // and what lies behind the last value
+			carved := make([][]byte, len(bv))
+			for i, c2 := range cut {
+				carved[i] = arena[c2[0] : c2[0]+c2[1]]
+			}
+			snapshot := append([]byte{}, arena...)
+			func() {
+				defer func() { recover() }()
+				trie.NewSlimTrie(c.encoder(), keys, carved, c.Opt.opt())
+			}()
+			if !bytes.Equal(arena, snapshot) {
+				at := 0
+				for at < len(arena) && arena[at] == snapshot[at] {
+					at++
+				}
+				return viol("values-modified", "NewSlimTrie wrote into the caller's value buffer: %d values cut out of one %d-byte arena (variant %d: %s), byte %d changed from %02x to %02x", len(bv), len(arena), variant, []string{"every value has its declared size", "some values are shorter than the declared size"}[variant], at, snapshot[at], arena[at])
+			}
+		}
+		s.class("value_arena_checked")
+	}
 	after := [4]*bool{opt.DedupValue, opt.InnerPrefix, opt.LeafPrefix, opt.Complete}
 	for i := range ptrs {
 		if after[i] != ptrs[i] {
